@@ -85,6 +85,12 @@ CHECKS = {
          "lock/wait returned; W<=64 waiters registered under the mutex must all arrive after ONE broadcast and at least one after ONE signal; a woken waiter that stays inside must make a prober's trylock fail; TSan decides "
          "the atomicity of release-and-wait on plain monitor data; a progress watchdog reports lost wake-ups.",
     note="Wake-up arrival uses a generous 20 s wall-clock bound; glibc condvars trusted as far as observed."),
+ "C05": dict(cat="exploration", ref="§3 C05",
+    technique="runtime monitor of handle blocks in the allocator log against shadow reference counts and finished flags, exit-code/payload oracle after join, per-value TLS destructor counters, --wrap delay injection at thread start; ASan, plain, TSan builds",
+    text="Thousands of joinable/detached threads with random exit codes, ref/unref/join orders and injected start/creator delays: the free of each PUThread block must happen exactly once, with no harness reference left and the "
+         "thread function finished (both release orders must be observed); join must yield the code, happen after the function finished and make plain payload writes visible (TSan); TLS values are per-thread, set_local never "
+         "destroys, replace_local destroys once before returning, values left at exit are destroyed once, first-use races on a fresh key keep values apart and leak no key block; foreign threads' implicit handles are released at exit.",
+    note="Tracking allocator absent in TSan builds; one documented TSan suppression (failed CAS modelled as write)."),
 }
 
 NOT_YET = {}
